@@ -44,6 +44,19 @@ fn ema_geometric<T: Dom>(n: usize, s: usize, m: usize) {
         }
     }
 }
+/// SuperSmoother (double pole of radius a1 = exp(-1.414 pi/N)) and LaguerreFilter (four poles at gamma): the difference of two streams
+/// after j common values is at most 64 j^3 r^j for the pole radius r — stated at the first j where that is below 1e-9, i.e. far below
+/// the 2^-6 of the generic units, so that a recursion which stops contracting near its fixed point is seen
+fn tight_fading<T: Dom>(vk: VK, r: f64, s: usize, m: usize) {
+    let (mut a, mut b) = (chain::<T>(&[vk.clone()]), chain::<T>(&[vk.clone()]));
+    for i in 0..s { let (x, y) = (bounded_input::<T>(&format!("px{i}")), bounded_input::<T>(&format!("py{i}"))); a.update(x); b.update(y); }
+    for j in 0..m { let z = bounded_input::<T>(&format!("z{j}")); a.update(z); b.update(z); }
+    let bound = 64.0 * (m as f64).powi(3) * r.powi(m as i32);
+    match (a.last(), b.last()) {
+        (Some(p), Some(q)) => T::oblige_abs_le_boxed(&format!("{}: two streams differing only in their first {s} values are within 64 m^3 r^m = {bound:.3e} of each other after m = {m} common values (pole radius r = {r:.4})", vk.name()), p - q, bound),
+        _ => T::oblige(&format!("{}: has a value after {} inputs", vk.name(), s + m), Cond::Bool(false)),
+    }
+}
 /// TrendFlex / ReFlex: |out| <= 5 and ms >= 0 on every path (short streams)
 fn flex_bounded<T: Dom>(vk: VK, k: usize) {
     let mut v = build::<T>(&vk, echo());
@@ -175,6 +188,13 @@ pub fn units(tier: Tier, _seed: u64) -> Vec<Unit> {
         let m = ((2e10f64).ln() / -rho.ln()).ceil() as usize;
         for sl in [1usize, n + 2] { u.push(unit!(format!("C09/geometric/Ema({n})/s={sl}/m={m}"), ema_geometric(n, sl, m))); }
     }
+    let first_m = |r: f64| -> usize { let mut m = 8usize; while 64.0 * (m as f64).powi(3) * r.powi(m as i32) > 1e-9 { m += 1; } m };
+    for n in [2usize, 3, 5, 9] {
+        let r = (-1.414 * std::f64::consts::PI / n as f64).exp();
+        let m = first_m(r);
+        u.push(unit!(format!("C09/tight/SuperSmoother({n})/s=3/m={m}"), tight_fading(VK::SuperSmoother(n), r, 3usize, m)));
+    }
+    for g in [0.2f64, 0.5, 0.8] { let m = first_m(g); u.push(unit!(format!("C09/tight/LaguerreFilter({g})/s=3/m={m}"), tight_fading(VK::LaguerreFilter(g), g, 3usize, m))); }
     for ma in [VK::SuperSmoother(1), VK::SuperSmoother(2), VK::Ema(2)] {
         let mut x = unit!(format!("C09/EFT(2,{})/bounded/k=6", ma.name()), eft_bounded(2usize, ma.clone(), 6usize)); x.panic_is_violation = true; u.push(x);
     }
@@ -185,7 +205,7 @@ pub fn units(tier: Tier, _seed: u64) -> Vec<Unit> {
 pub fn meta() -> Meta {
     Meta {
         functions: vec!["Ema", "LaguerreFilter", "SuperSmoother", "RoofingFilter", "CyberCycle", "TrendFlex", "ReFlex", "LaguerreRSI", "EhlersFisherTransform — each ::{new,update,last}, two instances on streams with different prefixes and a common tail; two-level chains of the linear ones"],
-        bounds: "N in {1..9} (quick) / {1..10,12,16,24,32} (thorough; Roofing to 16, two-level chains to 10), and for Ema/SuperSmoother/CyberCycle also N in {28,41,66} (quick) / {28,41,48,66,100,128}; private prefix length s=2 (quick) / {1,2,4}, and s=N+2 (a prefix covering the whole warm-up phase) for Ema/SuperSmoother/CyberCycle at every N >= 2; horizon m = 8N common values (16N for Roofing and two-level chains, 32/(1-gamma) for LaguerreFilter, gamma in {0,.2,.5,.8} quick, plus .95 with m=400 thorough); inputs are solver variables bounded by 1; one fixed gain bound 64 for all N (checked at every step up to 16, then every 8th); TrendFlex/ReFlex: output bound on all paths for k=6, fading posed on the deviation term d destructured from the output term d/sqrt(ms), along the comparison path followed by 1 (quick) / 3 (thorough) pseudo-random sample inputs (the `ms > 0` tests are nonlinear; the verdict covers every input following that path); LaguerreRSI: CU-CD = L0-L3 destructured from CU/(CU+CD), m=5/6 with an explicit geometric bound, up to the path cap; EFT: exact halving of the difference once the windows agree; Ema at N in {2,3,5,9,20}: the exact geometric bound 2((N-1)/(N+1))^j on the difference after j = m/2 and j = m common values, m the first step at which that bound is below 1e-10",
+        bounds: "N in {1..9} (quick) / {1..10,12,16,24,32} (thorough; Roofing to 16, two-level chains to 10), and for Ema/SuperSmoother/CyberCycle also N in {28,41,66} (quick) / {28,41,48,66,100,128}; private prefix length s=2 (quick) / {1,2,4}, and s=N+2 (a prefix covering the whole warm-up phase) for Ema/SuperSmoother/CyberCycle at every N >= 2; horizon m = 8N common values (16N for Roofing and two-level chains, 32/(1-gamma) for LaguerreFilter, gamma in {0,.2,.5,.8} quick, plus .95 with m=400 thorough); inputs are solver variables bounded by 1; one fixed gain bound 64 for all N (checked at every step up to 16, then every 8th); TrendFlex/ReFlex: output bound on all paths for k=6, fading posed on the deviation term d destructured from the output term d/sqrt(ms), along the comparison path followed by 1 (quick) / 3 (thorough) pseudo-random sample inputs (the `ms > 0` tests are nonlinear; the verdict covers every input following that path); LaguerreRSI: CU-CD = L0-L3 destructured from CU/(CU+CD), m=5/6 with an explicit geometric bound, up to the path cap; EFT: exact halving of the difference once the windows agree; SuperSmoother at N in {2,3,5,9} and LaguerreFilter at gamma in {.2,.5,.8}: the bound 64 m^3 r^m (r the pole radius) at the first m where it is below 1e-9; Ema at N in {2,3,5,9,20}: the exact geometric bound 2((N-1)/(N+1))^j on the difference after j = m/2 and j = m common values, m the first step at which that bound is below 1e-10",
         outside: vec!["'unbounded length': the claim is the horizon s+m", "N > 32 (N > 128 for the three linear filters named above)", "an instability slower than 2^(1/(8N)) per step", "f64 rounding"],
         assumptions: vec!["term destructuring: where the output term the real code built is num/sqrt(rad) or num/den, obligations are posed on those sub-terms"],
     }
